@@ -23,6 +23,7 @@
   `Bernoulli`, `Categorical` or `DiscreteUniform`; no `simult`, no `ite`, no continuous draw.
   `checkInductiveC` is the same procedure for `FragmentC P` (continuous draws allowed, variable names must not start
   with `@`); its soundness theorem reads "constant" as "constant function of the draw atoms".
+  V2 for `FragmentC P` is `checkOneStepC` in `Polar/ValidateStepC.lean`.
 -/
 import Polar.Sem
 
